@@ -17,14 +17,51 @@ def shape(t):
     return [t.symbol.name(), [shape(c) for c in t.children]]
 
 
-def run_config(cfg):
+def construct(cfg):
     from fandango import Fandango
 
+    return Fandango(cfg["spec_text"], use_stdlib=bool(cfg.get("use_stdlib", False)), use_cache=False)
+
+
+def run_script(script):
+    """C18: interleaved use of several instances.  ops: ["new", name, cfg] / ["fuzz", name] / ["parse", name] /
+    ["start", name, k] (init_population + generate_solutions, take k, generator stays suspended) / ["resume", name, m]"""
+    import itertools
+
+    objs, cfgs, gens, report = {}, {}, {}, {}
+    for op in script:
+        kind, name = op[0], op[1]
+        rep = report.setdefault(name, {})
+        try:
+            if kind == "new":
+                cfgs[name] = op[2]
+                objs[name] = construct(op[2])
+            elif name not in objs:
+                rep.setdefault("skipped", []).append(kind)
+            elif kind == "fuzz":
+                r = run_config(cfgs[name], objs[name], do_parse=False)
+                r.pop("parses", None)
+                rep.update(r)
+            elif kind == "parse":
+                rep["parses"] = run_config(dict(cfgs[name], desired=0), objs[name])["parses"]
+            elif kind == "start":
+                objs[name].init_population(**cfgs[name]["settings"])
+                gens[name] = objs[name].generate_solutions(max_generations=cfgs[name]["gens"])
+                rep["stream"] = [[str(t), shape(t)] for t in itertools.islice(gens[name], op[2])]
+            elif kind == "resume":
+                rep["stream"] = rep.get("stream", []) + [[str(t), shape(t)] for t in itertools.islice(gens[name], op[2])]
+        except Exception as e:
+            rep[f"{kind}_error"] = f"{type(e).__name__}: {str(e)[:200]}"
+    return report
+
+
+def run_config(cfg, f=None, do_parse=True):
     out = {"solutions": [], "parses": []}
-    try:
-        f = Fandango(cfg["spec_text"], use_stdlib=False, use_cache=False)
-    except Exception as e:
-        return {"error": f"{type(e).__name__}: {e}"}
+    if f is None:
+        try:
+            f = construct(cfg)
+        except Exception as e:
+            return {"error": f"{type(e).__name__}: {e}"}
     if cfg.get("desired"):
         try:
             sols = f.fuzz(desired_solutions=cfg["desired"], max_generations=cfg["gens"], **cfg["settings"])
@@ -36,7 +73,7 @@ def run_config(cfg):
                 out["solutions"].append([s, shape(t)])
         except Exception as e:
             out["fuzz_error"] = f"{type(e).__name__}: {str(e)[:200]}"
-    for w in cfg.get("words", []):
+    for w in cfg.get("words", []) if do_parse else []:
         try:
             trees = []
             for i, t in enumerate(f.parse(w)):
@@ -72,9 +109,12 @@ def main():
     real_stdout = sys.stdout
     sys.stdout = devnull
     sys.stderr = devnull
-    for cfg in job.get("activity", []):
-        run_config(cfg)
-    report = [run_config(cfg) for cfg in job["configs"]]
+    if "script" in job:
+        report = run_script(job["script"])
+    else:
+        for cfg in job.get("activity", []):
+            run_config(cfg)
+        report = [run_config(cfg) for cfg in job["configs"]]
     sys.stdout = real_stdout
     json.dump({"report": report, "pid": os.getpid(), "n_pad": len(pad) + len(pad2)}, sys.stdout)
 
